@@ -5,7 +5,7 @@ use std::sync::Arc;
 use rayon::prelude::*;
 use serde_json::{json, Value};
 
-use crate::engine::{explore, replay_trace, validate_traces, Limits, Report, Violation};
+use crate::engine::{explore, guarded, replay_trace, validate_traces, Limits, Report, Violation};
 use crate::exch::{Act, Exch, ExchCfg};
 
 pub fn trace_json(t: &[Act]) -> Value {
@@ -149,3 +149,80 @@ pub fn replay_exchange(cfg: Arc<ExchCfg>, v: &Value) -> Result<Option<String>, S
         }
     }
 }
+
+
+// ------------------------------------------------------------------------------------------
+// Interleaved exchanges: two flows driven alternately on ONE thread. Whatever one flow does between
+// two calls of the other must not matter (no state shared between objects: caches, scratch buffers
+// or parsed values kept at module scope). For every ordered pair (X, Y) of the menu and every (i, j):
+// X runs i steps of the fine-grained canonical schedule, Y runs j steps, X runs to its end, Y runs to
+// its end - all interleavings with three context switches; every step under the full oracles.
+
+fn run_to_end(e: &mut Exch, max_steps: usize) -> Result<usize, (String, String)> {
+    let mut n = 0;
+    while !crate::engine::Sys::is_final(e) {
+        if n >= max_steps {
+            return Ok(n);
+        }
+        e.canonical_step(true)?;
+        n += 1;
+        if n > 2000 {
+            return Err(("interleaved:harness".into(), "canonical schedule does not end".into()));
+        }
+    }
+    Ok(n)
+}
+
+pub fn run_interleaved(prop: &'static str, menu: Vec<Arc<ExchCfg>>, rep: &mut Report) {
+    // solo lengths
+    let lens: Vec<usize> = menu.iter().map(|c| { let mut e = Exch::new(c.clone()).expect("exch"); run_to_end(&mut e, usize::MAX).expect("solo run") }).collect();
+    let pairs: Vec<(usize, usize)> = (0..menu.len()).flat_map(|x| (0..menu.len()).map(move |y| (x, y))).collect();
+    let res: Vec<(usize, usize, u64, Option<(String, String, usize, usize)>)> = pairs
+        .par_iter()
+        .map(|&(x, y)| {
+            let _g = crate::engine::watch(|| format!("{} interleaved pair ({}, {})", prop, x, y));
+            let mut runs = 0u64;
+            for i in 0..=lens[x] {
+                for j in 0..=lens[y] {
+                    runs += 1;
+                    let r = guarded(|| -> Result<(), (String, String)> {
+                        let mut a = Exch::new_k(menu[x].clone())?;
+                        let mut b = Exch::new_k(menu[y].clone())?;
+                        run_to_end(&mut a, i)?;
+                        run_to_end(&mut b, j)?;
+                        run_to_end(&mut a, usize::MAX)?;
+                        run_to_end(&mut b, usize::MAX)?;
+                        crate::engine::Sys::final_check(&a)?;
+                        crate::engine::Sys::final_check(&b)?;
+                        Ok(())
+                    });
+                    let fail = match r {
+                        Ok(Ok(())) => None,
+                        Ok(Err((k, w))) => {
+                            let base = k.trim_start_matches(&format!("{}:", prop)).to_string();
+                            let owned = base.starts_with("panic:") || (menu[x].scope)(&base);
+                            Some((format!("{}{}:interleaved:{}", if owned { "" } else { "out-of-scope:" }, prop, base), w))
+                        }
+                        Err(p) => Some((format!("{}:interleaved:panic:{}", prop, crate::engine::panic_site(&p)), p)),
+                    };
+                    if let Some((k, w)) = fail {
+                        return (x, y, runs, Some((k, w, i, j)));
+                    }
+                }
+            }
+            (x, y, runs, None)
+        })
+        .collect();
+    let mut total = 0;
+    for (x, y, runs, fail) in res {
+        total += runs;
+        rep.evaluations += runs;
+        rep.transitions += runs * (lens[x] + lens[y]) as u64;
+        if let Some((key, what, i, j)) = fail {
+            rep.violation(Violation { key, ord: 70_000_000 + (x * 10 + y) as u64, what: format!("{} [two exchanges on one thread: #{} runs {} steps, #{} runs {} steps, #{} to its end, #{} to its end; alone each passes]", what, x, i, y, j, x, y), replay: json!({"kind": "interleaved", "x": x, "y": y}) });
+        }
+    }
+    rep.extra("interleaved_runs", json!(total));
+    rep.guard("interleaved pairs ran", total > 100);
+}
+
